@@ -17,7 +17,7 @@ PROP = {
         "kExceptEvent is not subscribed; a descriptor in an error condition (POLLERR: write end of a pipe without reader) is served under the safety oracle, but from that pass on the two back-ends are not compared (EPOLLERR vs. select's 'readable and writable')",
         "readiness is the kernel's view at the wait call of the pass (poll() snapshot taken right before it); bytes consumed by an earlier callback of the same pass do not revoke it, as FdEvent.OneWriteMultiRead expects",
         "a pass marked as interrupted wait blocks for real (0.4-1.2 ms) until a real-time signal with a no-op handler interrupts epoll_wait/select; it is armed only when the model predicts that nothing is ready",
-        "the model takes the mode (persistent / one-shot) of the last successful initialize(); known clean-tree defect (proposed-fixes/04: the one-shot flag is never cleared by a later initialize(kPersist)) is excluded by construction behind kAvoid_oneshot_to_persist_reinit until the fix is committed",
+        "the model takes the mode (persistent / one-shot) of the last successful initialize(); the defect of proposed-fixes/04 (the one-shot flag was never cleared by a later initialize(kPersist)) is fixed in /repo by 969605f, so that shape is generated (kAvoid_oneshot_to_persist_reinit = false)",
         "left free: order in which ready descriptors are served, whether an event enabled by a callback on a descriptor that is ready fires in the same or the next pass, reported mask bits nobody subscribed to, liveness other than through the epoll/select comparison",
         "back-ends are compared only up to the first pass in which a callback touched another event of a descriptor ready in that pass, or callbacks of two different descriptors acted beyond their own event",
     ],
